@@ -348,8 +348,8 @@ theorem deferred_block_invisible (C : CommitMethod) (hC : wfCommit C = true) (pr
 
 /-- **a block commits as a whole at its normal exit**: afterwards the store is the reference content of
     `pre ++ blk`; together with the previous theorem: all of the block or nothing of it -/
-theorem deferred_block_atomic (C : CommitMethod) (hC : wfCommit C = true) (pre blk : List Call)
-    (hpre : TopLevel pre) (hblk : TopLevel blk) (e x : Call) (he : e.ops = [.enter]) (hx : x.ops = [.exit]) :
+theorem deferred_block_atomic (C : CommitMethod) (hC : wfCommit C = true) (hB : wfBatch C = true)
+    (pre blk : List Call) (hpre : TopLevel pre) (hblk : TopLevel blk) (e x : Call) (he : e.ops = [.enter]) (hx : x.ops = [.exit]) :
     visible (runCalls C (pre ++ [e] ++ blk ++ [x]) Db.init) = (spec (pre ++ blk)).1 := by
   rw [List.append_assoc, List.append_assoc, runCalls_append, runCalls_append, runCalls_append,
     runCalls_init C hC pre hpre]
@@ -365,10 +365,37 @@ theorem deferred_block_atomic (C : CommitMethod) (hC : wfCommit C = true) (pre b
     { durable := (spec pre).1, work := (spec pre).1, defer := 1, acks := (spec pre).2 } = s3 at d1 d2 d4 d5
   simp only [] at d1 d2 d4 d5
   rw [hspec, ← d2, visible_eq]
+  have hX : C.exitResetsFirst = true := by simp [wfBatch] at hB; exact hB.2
   by_cases hgt : s3.defer > 1
-  · simp [runCalls, runCall, hx, runPrims, stepPrim, hgt, doCommit_idle C hC]
+  · simp [runCalls, runCall, hx, runPrims, stepPrim, hgt, hX, doCommit_idle C hC]
   · have h1 : s3.defer = 1 := by omega
-    simp [runCalls, runCall, hx, runPrims, stepPrim, hgt, d1, d5 h1]
+    simp [runCalls, runCall, hx, runPrims, stepPrim, hgt, hX, d1, d5 h1]
+
+/-- **batches of any nesting flush when they are left.**  `W` is any sequence of inserts, `__enter__`s and normal
+    `__exit__`s (nested, repeated, even unbalanced).  After it ran without a kill: the connection's image is the
+    reference content of all its inserts, and whenever at most one level of deferral is counted (`defer ≤ 1`, in
+    particular after the outermost exit, `defer = 0`) everything is committed — every insert that returned inside a
+    batch is durable once the outermost batch has been left, so a later kill cannot lose it.  Needs `wfBatch`:
+    `__enter__` keeps the enclosing count and `__exit__` resets before committing (both generated; a nested
+    `__enter__` that resets the count to 1 breaks exactly this, see the example below). -/
+theorem batches_flush_on_exit (C : CommitMethod) (hC : wfCommit C = true) (hB : wfBatch C = true) (W : List Call)
+    (hW : Batched W) :
+    (runCalls C W Db.init).work = (spec W).1 ∧
+    ((runCalls C W Db.init).defer ≤ 1 → (runCalls C W Db.init).durable = (runCalls C W Db.init).work) := by
+  have h := runCalls_batched C hC hB W hW Db.init ⟨fun _ => rfl⟩
+  exact ⟨h.1, h.2.2.1⟩
+
+/-- the generated `Database` nests and flushes -/
+theorem batch_counter_shape : wfBatch Gen.commitMethod = true := by decide
+
+/-- what `max(1, …)` in `__enter__` is for: outer batch stores a record, an inner batch does nothing, both are left
+    normally — with an `__enter__` that resets the counter the record is still uncommitted, a kill loses it -/
+example :
+    let C : CommitMethod := { Gen.commitMethod with enterKeeps := false }
+    let W : List Call := [⟨0, [.enter], 0, 0⟩, ⟨1, [.exec 0 .orIgnore, .callCommit, .ret], 1, 1⟩, ⟨2, [.enter], 0, 0⟩,
+                          ⟨3, [.exit], 0, 0⟩, ⟨4, [.exit], 0, 0⟩]
+    (runCalls C W Db.init).defer = 0 ∧ (runCalls C W Db.init).acks = [1] ∧ visible (runCalls C W Db.init) = [] ∧
+    visible (runCalls Gen.commitMethod W Db.init) = [⟨0, 1, 1⟩] := by decide
 
 /-- non-vacuity: two inserts inside a block, killed after the second has returned: nothing is visible; after the
     exit both are -/
